@@ -64,6 +64,9 @@ Definition hyp_wf (c : case) : bool := wf_descb (fst c) && words_okb (fst c).
 Definition lockstep_applicable (r : registry) : bool :=
   wf_descb r && words_okb r && paths_only_on_items r.
 
+(** the hypotheses of C13_total + C13_lockstep hold for the registry of the case *)
+Definition hyp_lockstep (c : case) : bool := lockstep_applicable (fst c).
+
 Definition expected_atoms (r : registry) (nf f : nat) (id : N) : option (list tok) :=
   option_map (fun x => atoms (fst x)) (spec_tree r nf f ([], []) id).
 
@@ -101,6 +104,14 @@ Definition prop_ws (c : case) : bool :=
     | OErr a, OErr b => String.eqb a b
     | OPanic, OPanic => true
     | _, _ => false
+    end) (snd c).
+
+(** the two observed texts have the same words and punctuation (any registry) *)
+Definition prop_fmt_tokens (c : case) : bool :=
+  forallb (fun '(_, u, f) =>
+    match u, f with
+    | OOk a, OOk b => list_eqb ctok_eqb (ctokens (utf8_decode a)) (ctokens (utf8_decode b))
+    | _, _ => true
     end) (snd c).
 
 (** ** every reachable struct / enum is written out at least once *)
